@@ -465,6 +465,158 @@ def rule_endpoints(chk, prog):
     (r.bad if miss else r.ok)("Avoid::ConnRef::generatePath", fn.where(), "missing end-point assertions: %s" % miss if miss else "")
 
 
+def rule_sweep_border(chk, prog):
+    r = chk.rule("SWEEP-BORDER", "vertexSweep (Lee's algorithm): for at least one polygon neighbour role (shPrev or shNext) of every swept vertex k, "
+                 "`centre lies on the edge (neighbour, k)` is recorded in onBorderIDs under no condition other than the neighbour existing, "
+                 "not being the centre itself, and pointOnLine(neighbour, k, centre) -- in particular independently of the tests for "
+                 "edges crossing the initial ray (every edge is met from both of its ends, so one role covers all edges); sweepVisible "
+                 "treats a point at the distance of the closest edge as blocked when the centre lies on that shape's border", floor=2)
+    fn = prog.fn("Avoid::vertexSweep")
+    sal = single_assignment_locals(fn)
+    ins = [c for c in calls(fn) if c.get("cname", "").endswith("::insert") and norm(call_object(c)) == "onBorderIDs"]
+    seen = {}
+    for c in ins:
+        pc = path_condition(fn, c, inline=True)
+        ats = [a for a in atoms(pc) if ".end()" not in a and "vend" not in a]
+        on = [a for a in ats if a.startswith("Avoid::pointOnLine(")]
+        which = None
+        for a in on:
+            if "shPrev" in a:
+                which = "shPrev"
+            elif "shNext" in a:
+                which = "shNext"
+        if which is None:
+            continue
+        extra = [a for a in ats if not (a.startswith("Avoid::pointOnLine(") or a == "t.*.vInf.%s" % which or
+                                        (a.startswith("(t.*.vInf.%s != " % which) and a.count(" ") == 2))]
+        good = not extra and entails(_drop_iter(pc), ("atom", on[0]))
+        seen.setdefault(which, []).append((good, c, extra))
+    # every obstacle edge (a, b = a.shNext) away from the centre is met twice by the loop over the swept vertices: at k = a through shNext
+    # and at k = b through shPrev (both ends belong to one shape, so both are in the vertex list or neither is).  One unconditional
+    # recording -- for either neighbour role -- therefore covers every edge; a second one is redundant, not required.
+    r.count()
+    allrec = [(g, c, e, w) for w in ("shPrev", "shNext") for g, c, e in seen.get(w, [])]
+    if not allrec:
+        r.bad("border recorded for every edge", fn.where(), "the sweep never records that its centre lies on an obstacle edge: a corner resting on "
+              "another side of the same shape is then declared visible straight through the shape")
+    elif not any(g for g, c, e, w in allrec):
+        g, c, e, w = allrec[0]
+        r.bad("border recorded for every edge", fn.loc(c), "`centre on the edge to %s` is recorded only under the additional condition(s) %s, and no "
+              "recording for the other neighbour is unconditional either: an edge that is collinear with the initial ray is never looked at" % (w, e[:2]))
+    else:
+        g, c, e, w = [x for x in allrec if x[0]][0]
+        r.ok("border recorded for every edge", fn.loc(c), "unconditional for the %s neighbour of every swept vertex" % w)
+    fv = prog.fn("Avoid::sweepVisible")
+    sets = [node for lhs, node, op in writes(fv) if norm(lhs) == "visible" and literal_value(node["ch"][1]) == "false"]
+    touching = 0
+    for st in sets:
+        pc = path_condition(fv, st, inline=False)
+        if any("onBorderIDs.find(" in a for a in atoms(pc)) and any("(point.distance == closestIt.*.angleDist)" in a or "== closestIt" in a for a in atoms(pc)):
+            touching += 1
+    r.count()
+    (r.ok if touching >= 2 else r.bad)("sweepVisible touching case", fv.where(), "" if touching >= 2 else
+                                       "a point at exactly the distance of the closest edge is no longer blocked when the centre lies on that shape's border "
+                                       "(both the connector-end-point and the shape-vertex branch must test it)")
+
+
+def _drop_iter(f):
+    if f[0] == "atom":
+        return ("const", True) if (".end()" in f[1] or "vend" in f[1]) else f
+    if f[0] == "const":
+        return f
+    if f[0] == "not":
+        inner = _drop_iter(f[1])
+        if f[1][0] == "atom" and inner == ("const", True):
+            return ("const", True)
+        return ("not", inner)
+    return (f[0], _drop_iter(f[1]), _drop_iter(f[2]))
+
+
+def rule_free_side_lines(chk, prog):
+    """Orthogonal visibility: the free line along a shape's side stops at shapes overlapping that side."""
+    from ..microai.interp import Interp, Obj, Vec, SetVal, Oracle, AssertFail, Thrown, Unsupported, default_obj
+    from fractions import Fraction
+    r = chk.rule("FREE-SIDE-LINES", "processEventHori / processEventVert (pass 2, shape side events), interpreted with the limits reported by "
+                 "findFirstPointAboveAndBelow: when no shape overlaps the side line (minLimitMax >= maxLimitMin) one visibility line "
+                 "[minLimit, maxLimit] through both corners is created; otherwise at most the two pieces [minLimit, minLimitMax] and "
+                 "[maxLimitMin, maxLimit], each only if non-empty and containing its shape corner -- no created line enters the blocked "
+                 "stretch (minLimitMax, maxLimitMin), and every line lies at the side's own coordinate; the same for processEventVert", floor=2)
+    ev_types = {}
+    for e in prog.enums.values():
+        nm_ = [c["name"] for c in e.get("enumerators", [])]
+        if "SegOpen" in nm_ and "ConnPoint" in nm_ and str(e.get("q", "")).startswith("Avoid::"):
+            ev_types = {c["name"]: int(c["v"]) for c in e["enumerators"]}
+    if "Open" not in ev_types:
+        raise AnalysisBroken("Avoid::EventType enumerators not found")
+    shape = (40, 60)
+    cases = [(0, 100, 100, 0), (0, 100, 70, 30), (0, 100, 30, 70), (0, 100, 45, 55), (0, 100, 30, 55), (0, 100, 45, 70), (0, 100, 0, 70),
+             (0, 100, 30, 100), (10, 90, 10, 90), (0, 100, 39, 61), (0, 100, 40, 60)]
+    for fname, side_dim in (("Avoid::processEventHori", 0), ("Avoid::processEventVert", 1)):
+      fn = prog.fn(fname)
+      n = 0
+      bad = None
+      for et in ("Open", "Close"):
+        for (mn, mx, mnmx, mxmn) in cases:
+            made = []
+
+            def find_hook(it, nd, env, vals=(mn, mx, mnmx, mxmn)):
+                a = call_args(nd)
+                for k_, v_ in zip(range(2, 6), vals):
+                    it.lv(a[k_], env).set(Fraction(v_))
+                return None
+
+            def ins_hook(it, nd, env):
+                seg = it.ev(call_args(nd)[0], env)
+                made.append(seg)
+                return seg
+
+            def seg_ctor(it, o, args, env):
+                a = [it.ev(x, env) for x in args]
+                o.f["begin"], o.f["finish"], o.f["pos"] = a[0], a[1], a[2]
+                o.f["vertInfs"] = SetVal()
+            lo = [Fraction(200), Fraction(shape[0])]
+            hi = [Fraction(260), Fraction(shape[1])]
+            if side_dim == 1:
+                lo.reverse()
+                hi.reverse()
+            node = default_obj(prog, "Avoid::Node", {"min": Vec(lo), "max": Vec(hi)})
+            evt = default_obj(prog, "Avoid::Event", {"type": ev_types[et], "v": node, "pos": Fraction(200 if et == "Open" else 260)})
+            hooks = {"Avoid::Node::findFirstPointAboveAndBelow": find_hook, "Avoid::SegmentListWrapper::insert": ins_hook}
+            it = Interp(prog, Oracle([]), hooks=hooks)
+            it.ctor_hooks = {"Avoid::LineSegment": seg_ctor, "Avoid::VertInf": lambda it_, o, args, env: o.f.__setitem__("point", it_.ev(args[2], env))}
+            try:
+                it.call(fn, None, None, None, arg_values=[default_obj(prog, "Avoid::Router", {}), SetVal(), default_obj(prog, "Avoid::SegmentListWrapper", {}), evt, 2])
+            except (Unsupported, AssertFail, Thrown) as e:
+                raise AnalysisBroken("%s outside the interpreter subset: %s" % (fname, e))
+            n += 1
+            got = []
+            for a_, b_ in sorted((s_.f["begin"], s_.f["finish"]) for s_ in made):      # touching pieces are one line (the list merges them)
+                if got and a_ <= got[-1][1]:
+                    got[-1] = (got[-1][0], max(got[-1][1], b_))
+                else:
+                    got.append((a_, b_))
+            linex = Fraction(200 if et == "Open" else 260)
+            if mnmx >= mxmn:
+                want = [(Fraction(mn), Fraction(mx))]
+            else:
+                want = []
+                if mnmx > mn and mnmx >= shape[0]:
+                    want.append((Fraction(mn), Fraction(mnmx)))
+                if mxmn < mx and mxmn <= shape[1]:
+                    want.append((Fraction(mxmn), Fraction(mx)))
+                want.sort()
+            inst = "%s side, limits [%d,%d], overlapping stretch (%d,%d)" % (et, mn, mx, mnmx, mxmn)
+            if got != want:
+                bad = bad or "%s: visibility lines %s, expected %s" % (inst, [(str(a), str(b)) for a, b in got], [(str(a), str(b)) for a, b in want])
+            if mnmx < mxmn and any(b_ > mnmx and a_ < mxmn for a_, b_ in got):
+                bad = bad or "%s: a created line enters the stretch covered by an overlapping shape" % inst
+            if any(s_.f["pos"] != linex for s_ in made):
+                bad = bad or "%s: a line is created at %s, the side is at %s" % (inst, [str(s_.f["pos"]) for s_ in made], linex)
+      r.count()
+      r.evaluations = getattr(r, "evaluations", 0) + n
+      (r.bad if bad else r.ok)("%s side lines" % fname.split("::")[-1], fn.where(), bad or "%d limit configurations" % n)
+
+
 def rule_contains(chk, prog):
     r = chk.rule("CONTAINS-AGREEMENT", "the two producers of Router::contains (which shapes enclose a connector end point: generateContains "
                  "per end point, adjustContainsWithAdd per added shape) test the same polygon -- the obstacle's routingPolygon(), the one "
@@ -518,6 +670,8 @@ def run(chk):
     rule_fallback(chk, prog)
     rule_endpoints(chk, prog)
     rule_contains(chk, prog)
+    rule_sweep_border(chk, prog)
+    rule_free_side_lines(chk, prog)
     from .c10 import rule_limits_narrow
     rule_limits_narrow(chk, prog)
     from ..rules import mirrors
